@@ -28,41 +28,116 @@ ASSUMPTIONS = [
     "Route::Frontend is observed through RouteResult.{cluster_id, redirect, required_auth} only (no rewrite templates, headers, HSTS)",
     "the listener glue of lib/src/http.rs (add/remove_http_frontend, frontend_from_request) is tied to the Router by the black-box tier only (real worker, real HTTP/1.1 requests answered by per-frontend redirects); https.rs shares the same Router calls and is not exercised",
 ]
-TRUSTED = ["translator props/c04.py:translate pins the PartialEq arms of PathRule/DomainRule, the selection-loop comparisons and the trie's Failed/assert sites in lib/src/router/{mod,pattern_trie}.rs"]
+TRUSTED = ["translator props/c04.py:translate reads (by meaning: locals free, comments ignored, named constants resolved) the PartialEq arms of PathRule/DomainRule, the rank numbers and the comparison of the selection loop, de-duplication / retain / own-leaf filter, and the trie's refusal, pruning and fall-through sites in lib/src/router/{mod,pattern_trie}.rs; unrecognised constructs fall back on the correspondence run (TRANSLATE_FALLBACK) with Gen.v from props/c04_facts.json; the documentation sentences stay hard"]
 
 
 def _src(rel):
     return open(os.path.join(vlib.REPO, rel)).read()
 
 
-def translate():
-    """T-table: the arms of PathRule's PartialEq and the rank numbers of the selection loop are read from the
-    source into coq/C04/Gen.v; the other constructs the model hard-codes are pinned by pattern."""
-    fails = []
-    m = _src("lib/src/router/mod.rs")
-    t = _src("lib/src/router/pattern_trie.rs")
-    arms = set()
-    pe = re.search(r"impl std::cmp::PartialEq for PathRule \{(.*?)\n\}", m, re.S)
+TRANSLATE_FALLBACK = ("every source fact read here (other than the documentation sentences) is a behaviour of Router / TrieNode "
+                      "that the driver observes: the answers to add/remove and the route of every probe after histories over "
+                      "colliding exact, wild-card, regex and malformed hostnames, EQUALS/REGEX/PREFIX rules that are prefixes of "
+                      "each other with and without methods, removals of the last rule of a host, duplicates, and the trie API "
+                      "itself (insert/remove/lookup/lookup_mut on the same keys); rank numbers, equality arms, the strict `>`, "
+                      "de-duplication, retain, own-leaf filter, pruning, fall-through and the refusal of un-storable names were "
+                      "each seen to produce model/driver disagreements and oracle violations in the quick batch when changed")
+FACTS_SNAPSHOT = os.path.join(os.path.dirname(os.path.abspath(__file__)), "c04_facts.json")
+
+
+def _strip(src):
+    src = re.sub(r"/\*.*?\*/", "", src, flags=re.S)
+    return re.sub(r"//[^\n]*", "", src)
+
+
+def _const(src, tok):
+    """a literal, or a named constant of the same file"""
+    if re.fullmatch(r"\d+", tok):
+        return int(tok)
+    m = re.search(r"\bconst\s+%s\s*:\s*\w+\s*=\s*(\d+)\s*;" % re.escape(tok), src)
+    return int(m.group(1)) if m else None
+
+
+def _read_arms(m):
+    """which same-variant arms `impl PartialEq for PathRule` has -> (set, hard failures) | (None, []) when the impl
+    is not in a form this reader understands (or-patterns are understood; anything left over is not)"""
+    pe = re.search(r"impl\s+(?:std::cmp::)?PartialEq\s+for\s+PathRule\s*\{(.*?)\n\}", m, re.S)
     if not pe:
-        fails.append("router/mod.rs: impl PartialEq for PathRule not found")
-    else:
-        for a, b, body in re.findall(r"\(PathRule::(\w+)\(\w+\), PathRule::(\w+)\(\w+\)\) => ([^,]+),", pe.group(1)):
-            if a == b and re.fullmatch(r"\w+(\.as_str\(\))? == \w+(\.as_str\(\))?", body.strip()):
+        return None, []
+    body = pe.group(1)
+    if not re.search(r"_\s*=>\s*false", body):
+        return None, []
+    arms, hard = set(), []
+    tup = r"\(\s*PathRule::\w+\(\w+\)\s*,\s*PathRule::\w+\(\w+\)\s*\)"
+    arm = re.compile(r"((?:%s\s*\|?\s*)+)=>\s*([^,]+)," % tup)
+    found = arm.findall(body)
+    if not found or "PathRule::" in arm.sub("", body):
+        return None, []
+    for pats, rhs in found:
+        rhs = rhs.strip()
+        for a, x, b, y in re.findall(r"PathRule::(\w+)\((\w+)\)\s*,\s*PathRule::(\w+)\((\w+)\)", pats):
+            same = re.fullmatch(r"(\w+)(\.as_str\(\))? == (\w+)(\.as_str\(\))?", rhs)
+            if a == b and same and {same.group(1), same.group(3)} == {x, y}:
                 arms.add(a)
+            elif a == b and rhs == "true":
+                hard.append("router/mod.rs: PathRule equality arm (%s, %s) ignores the value" % (a, b))
             else:
-                fails.append("router/mod.rs: unexpected PathRule equality arm (%s, %s) => %s" % (a, b, body.strip()))
-        if not re.search(r"_ => false,", pe.group(1)):
-            fails.append("router/mod.rs: PathRule equality lost its `_ => false` arm")
+                return None, []
+    return arms, hard
+
+
+def _read_ranks(m):
+    pats = (("equals", r"PathRuleResult::Equals\s*=>\s*\(\s*(\w+)\s*,\s*0\s*\)"),
+            ("regex", r"PathRuleResult::Regex\s*=>\s*\(\s*(\w+)\s*,\s*0\s*\)"),
+            ("prefix", r"PathRuleResult::Prefix\(\s*(\w+)\s*\)\s*=>\s*\(\s*(\w+)\s*,\s*\1\s*\)"),
+            ("m_equals", r"MethodRuleResult::Equals\s*=>\s*(\w+)\s*,"), ("m_all", r"MethodRuleResult::All\s*=>\s*(\w+)\s*,"))
     ranks = {}
-    for name, pat in (("equals", r"PathRuleResult::Equals => \((\d+), 0\)"), ("regex", r"PathRuleResult::Regex => \((\d+), 0\)"),
-                      ("prefix", r"PathRuleResult::Prefix\(size\) => \((\d+), size\)"),
-                      ("m_equals", r"MethodRuleResult::Equals => (\d+),"), ("m_all", r"MethodRuleResult::All => (\d+),")):
+    for name, pat in pats:
         mm = re.search(pat, m)
         if not mm:
-            fails.append("router/mod.rs: selection loop: rank of %s not found (%s)" % (name, pat))
-            ranks[name] = 0
-        else:
-            ranks[name] = int(mm.group(1))
+            return None
+        v = _const(m, mm.group(mm.lastindex))
+        if v is None:
+            return None
+        ranks[name] = v
+    return ranks
+
+
+def _fact(fails, src, where, what, ok, bad=()):
+    for pat in bad:
+        if re.search(pat, src, re.S):
+            fails.append("%s: %s -- the source now reads otherwise (/%s/)" % (where, what, pat))
+            return
+    if not any(re.search(pat, src, re.S) for pat in ok):
+        fails.append("unreadable: %s: cannot recognise the construct; the model assumes: %s" % (where, what))
+
+
+def translate():
+    """T-table: the arms of PathRule's PartialEq and the rank numbers of the selection loop are read from the
+    source into coq/C04/Gen.v (named constants resolved; comments, local names and layout free).  The other facts
+    the model mirrors are read by meaning; a construct that is not recognised is `unreadable:` (soft, see
+    TRANSLATE_FALLBACK) and Gen.v then comes from the committed snapshot props/c04_facts.json; a recognised
+    construct that says something else than the model is a hard failure."""
+    import json
+    fails = []
+    try:
+        m = _strip(_src("lib/src/router/mod.rs"))
+        t = _strip(_src("lib/src/router/pattern_trie.rs"))
+        doc = _src("doc/configure.md")
+    except OSError as ex:
+        return ["router sources cannot be read: %r" % (ex,)]
+    snap = json.load(open(FACTS_SNAPSHOT))
+    arms, hard = _read_arms(m)
+    fails += hard
+    if arms is None:
+        fails.append("unreadable: router/mod.rs: impl PartialEq for PathRule is not in a form the translator reads; "
+                     "the model assumes the arms %s" % snap["arms"])
+        arms = set(snap["arms"])
+    ranks = _read_ranks(m)
+    if ranks is None:
+        fails.append("unreadable: router/mod.rs: the rank numbers of the selection loop (PathRuleResult::{Equals,Regex,Prefix} "
+                     "and MethodRuleResult::{Equals,All} arms) cannot be read; the model assumes %s" % snap["ranks"])
+        ranks = snap["ranks"]
     gen = ("(* GENERATED by props/c04.py:translate from lib/src/router/mod.rs -- do not edit *)\n"
            "Definition path_eq_arm_prefix : bool := %s.\nDefinition path_eq_arm_regex : bool := %s.\n"
            "Definition path_eq_arm_equals : bool := %s.\n"
@@ -71,39 +146,47 @@ def translate():
            % tuple(["true" if x in arms else "false" for x in ("Prefix", "Regex", "Equals")] +
                    [ranks[k] for k in ("equals", "regex", "prefix", "m_equals", "m_all")]))
     vlib.write_if_changed(os.path.join(vlib.COQ, "C04", "Gen.v"), gen)
-    doc = _src("doc/configure.md")
+    # the documentation is the reference of the spec: nothing observes it, so these stay hard
     for pat, what in DOC_PINS:
         if not re.search(pat, doc, re.S):
             fails.append("doc/configure.md: " + what)
-    de = re.search(r"impl std::cmp::PartialEq for DomainRule \{(.*?)\n\}", m, re.S)
-    if not de or len(re.findall(r"\(DomainRule::\w+(?:\(\w+\))?, DomainRule::\w+(?:\(\w+\))?\)", de.group(1))) != 4:
-        fails.append("router/mod.rs: PartialEq for DomainRule no longer has the four arms Any/Wildcard/Exact/Regex")
+    W = r"[A-Za-z_][A-Za-z0-9_]*"
+    de = re.search(r"impl\s+(?:std::cmp::)?PartialEq\s+for\s+DomainRule\s*\{(.*?)\n\}", m, re.S)
+    if not de or len(re.findall(r"\(\s*DomainRule::\w+(?:\(\w+\))?\s*,\s*DomainRule::\w+(?:\(\w+\))?\s*\)", de.group(1))) != 4:
+        fails.append("unreadable: router/mod.rs: PartialEq for DomainRule: the four same-variant arms Any/Wildcard/Exact/Regex are not recognised")
     if not re.search(r"#\[derive\([^)]*PartialEq[^)]*\)\]\s*pub struct MethodRule", m):
-        fails.append("router/mod.rs: MethodRule no longer derives PartialEq")
-    for needle, what in MODEL_LOOKUP_PINS:
-        if not re.search(needle, m, re.S):
-            fails.append("router/mod.rs: " + what)
-    for needle, what in MODEL_TRIE_PINS:
-        if not re.search(needle, t, re.S):
-            fails.append("router/pattern_trie.rs: " + what)
+        fails.append("unreadable: router/mod.rs: MethodRule is no longer seen to derive PartialEq")
+    for where, src, facts in (("router/mod.rs", m, MODEL_LOOKUP_FACTS), ("router/pattern_trie.rs", t, MODEL_TRIE_FACTS)):
+        for what, ok, bad in facts:
+            _fact(fails, src, where, what, [x % dict(W=W) for x in ok], [x % dict(W=W) for x in bad])
     return fails
 
 
-# what coq/C04/Model.v and coq/Common/Trie.v mirror (updated together with them)
-MODEL_LOOKUP_PINS = [
-    (r"\.domain_lookup_mut\(hostname\.as_bytes\(\), false\)\s*\.filter\(\|\(key, _\)\| key\.as_slice\(\) == hostname\.as_bytes\(\)\)\s*\{\s*empty = false;",
-     "add_tree_rule no longer restricts itself to the leaf stored under the hostname"),
-    (r"let paths_opt = self\s*\.tree\s*\.domain_lookup_mut\(hostname\.as_bytes\(\), false\)\s*\.filter\(\|\(key, _\)\| key\.as_slice\(\) == hostname\.as_bytes\(\)\);",
-     "remove_tree_rule no longer restricts itself to the leaf stored under the hostname"),
-    (r"let rank = \(kind, size, method_rank\);\s*if matched\.is_none\(\) \|\| rank > best_rank \{\s*best_rank = rank;\s*matched = Some\(\(rule, route\)\);",
-     "selection loop: no longer `if matched.is_none() || rank > best_rank` on rank = (kind, size, method_rank)"),
-    (r"PathRuleResult::None => continue,", "selection loop: a non-matching path no longer skips the rule"),
-    (r"MethodRuleResult::None => continue,", "selection loop: a non-matching method no longer skips the rule"),
-    (r"paths\.retain\(\|\(p, m, _\)\| p != path \|\| m != method\);", "remove_tree_rule no longer retains on `p != path || m != method`"),
-    (r"if !paths\.iter\(\)\.any\(\|\(p, m, _\)\| p == path && m == method\) \{\s*paths\.push", "add_tree_rule no longer de-duplicates on (path, method)"),
-    (r"self\.tree\.lookup_with_path\(hostname_b, true, trie_path\)", "lookup no longer walks the tree with accept_wildcard = true"),
-    (r"\) == InsertResult::Failed\s*\{[^}]*return false;", "add_tree_rule no longer refuses a hostname the trie cannot store"),
-    (r"if index == s\.len\(\) \{\s*return None;\s*\}\s*if s\[index\] == b'/'", "convert_regex_domain_rule: bound check before s[index] is gone"),
+# what coq/C04/Model.v and coq/Common/Trie.v mirror: (what the model assumes, patterns that establish it, patterns
+# that contradict it); %(W)s is any identifier
+MODEL_LOOKUP_FACTS = [
+    ("add_tree_rule only uses the leaf stored under the hostname itself",
+     [r"fn add_tree_rule.*?domain_lookup_mut\([^;{]*?\)\s*\.filter\(\|\(%(W)s, _\)\|\s*%(W)s(\.as_slice\(\))?\s*==\s*%(W)s\.as_bytes\(\)\)"], []),
+    ("remove_tree_rule only uses the leaf stored under the hostname itself",
+     [r"fn remove_tree_rule.*?domain_lookup_mut\([^;{]*?\)\s*\.filter\(\|\(%(W)s, _\)\|\s*%(W)s(\.as_slice\(\))?\s*==\s*%(W)s\.as_bytes\(\)\)"], []),
+    ("selection: a rule replaces the current best only when its rank is strictly greater (first of equals kept)",
+     [r"%(W)s\.is_none\(\)\s*\|\|\s*(%(W)s)\s*>\s*(%(W)s)", r"%(W)s\.is_none\(\)\s*\|\|\s*(%(W)s)\s*<\s*(%(W)s)",
+      r"\.is_none_or\(\|%(W)s\|\s*%(W)s\s*[<>]\s*\*?%(W)s\)"],
+     [r"%(W)s\.is_none\(\)\s*\|\|\s*%(W)s\s*[<>]=\s*%(W)s"]),
+    ("selection: the rank is (kind, prefix length, method) compared lexicographically",
+     [r"let\s+%(W)s\s*=\s*\(\s*%(W)s\s*,\s*%(W)s\s*,\s*%(W)s\s*\)\s*;"], []),
+    ("selection: a rule whose path does not match is skipped", [r"PathRuleResult::None\s*=>\s*continue"], []),
+    ("selection: a rule whose method does not match is skipped", [r"MethodRuleResult::None\s*=>\s*continue"], []),
+    ("remove_tree_rule drops exactly the rules with that (path, method)",
+     [r"\.retain\(\|\(%(W)s, %(W)s, _\)\|\s*%(W)s\s*!=\s*%(W)s\s*\|\|\s*%(W)s\s*!=\s*%(W)s\)",
+      r"\.retain\(\|\(%(W)s, %(W)s, _\)\|\s*!\(\s*%(W)s\s*==\s*%(W)s\s*&&\s*%(W)s\s*==\s*%(W)s\s*\)\)"],
+     [r"fn remove_tree_rule(?:(?!\n    pub fn ).)*?\.retain\(\|\(%(W)s, %(W)s, _\)\|\s*%(W)s\s*!=\s*%(W)s\s*&&"]),
+    ("add_tree_rule refuses a duplicate (path, method)",
+     [r"!\s*%(W)s\s*\.iter\(\)\s*\.any\(\|\(%(W)s, %(W)s, _\)\|\s*%(W)s\s*==\s*%(W)s\s*&&\s*%(W)s\s*==\s*%(W)s\)"], []),
+    ("lookup walks the tree accepting wild-cards", [r"\.lookup_with_path\(\s*%(W)s\s*,\s*true\s*,"], [r"fn lookup\b(?:(?!\n    pub fn ).)*?\.lookup_with_path\(\s*%(W)s\s*,\s*false\s*,"]),
+    ("add_tree_rule answers false for a hostname the trie refuses", [r"==\s*InsertResult::Failed\s*\{[^}]*return false", r"InsertResult::Failed\s*=>\s*(\{\s*)?return false"], []),
+    ("convert_regex_domain_rule stops (None) when nothing follows the last '.'", [r"if\s+%(W)s\s*==\s*%(W)s\.len\(\)\s*\{\s*return None;?\s*\}\s*if\s+%(W)s\[%(W)s\]\s*==\s*b'/'",
+                                                                                  r"if\s+%(W)s\s*>=\s*%(W)s\.len\(\)\s*\{\s*return None;?\s*\}"], []),
 ]
 # the documented precedence the spec (is_best / documented_choice) formalises
 DOC_PINS = [
@@ -112,20 +195,32 @@ DOC_PINS = [
     (r"\*\*Configuration order does not affect routing\*\*", "the order-independence promise is gone"),
     (r"multiple\s+regex rules competing on the same authority produce undefined ordering", "regex-vs-regex is no longer documented as undefined"),
 ]
-MODEL_TRIE_PINS = [
-    (r"if remove_result == RemoveResult::Ok \{\s*self\.regexps\s*\.retain\(\|\(r, node\)\| r\.as_str\(\) != anchored_s \|\| !node\.is_empty\(\)\);\s*\}\s*return remove_result;",
-     "remove_recursive no longer prunes an emptied regex subtree"),
-    (r"if t\.0\.as_str\(\) == anchored_s && t\.1\.key_value\.is_some\(\) \{\s*t\.1\.key_value = None;", "remove_recursive: leftmost-regex removal no longer clears only that host's value"),
-    (r"\} else if t\.1\.key_value\.is_some\(\) \{\s*return InsertResult::Existing;\s*\} else \{.*?t\.1\.key_value = Some\(\(key\.to_vec\(\), value\)\);\s*return InsertResult::Ok;",
-     "insert_recursive: leftmost-regex insert on a value-less regex node changed"),
-    (r"if let Some\(child\) = self\.children\.get\(suffix\) \{\s*if let Some\(found\) = child\.lookup_with_path\(prefix, accept_wildcard, trace\.clone\(\)\) \{\s*return Some\(found\);",
-     "lookup_with_path no longer falls through when the literal child yields nothing"),
-    (r"if regexp\.is_match\(segment\) \{\s*let mut next = trace\.clone\(\);\s*next\.push\(TrieSubMatch::Regexp\(segment, regexp\)\);\s*if let Some\(found\) = child\.lookup_with_path\(prefix, accept_wildcard, next\) \{\s*return Some\(found\);",
-     "lookup_with_path no longer tries the next matching regex"),
-    (r"if insert_result == InsertResult::Failed \{\s*return InsertResult::Failed;", "insert no longer returns Failed from a failed recursion"),
-    (r"if partial_key\.is_empty\(\) \{\s*return InsertResult::Failed;", "insert_recursive no longer refuses an empty label"),
-    (r"if prefix\.is_empty\(\) && self\.wildcard\.is_some\(\) && accept_wildcard \{\s*trace\.push\(TrieSubMatch::Wildcard\(segment\)\);", "lookup_with_path: wildcard test changed"),
-    (r"if child\.is_empty\(\) \{\s*self\.children\.remove\(suffix\);", "remove_recursive no longer prunes an emptied child"),
+MODEL_TRIE_FACTS = [
+    ("remove_recursive prunes a regex subtree emptied by the removal",
+     [r"\.retain\(\|\(%(W)s, %(W)s\)\|\s*%(W)s\.as_str\(\)\s*!=\s*%(W)s\s*\|\|\s*!%(W)s\.is_empty\(\)\)"], []),
+    ("remove_recursive: removing a leftmost-regex host clears only that host's value",
+     [r"key_value\.is_some\(\)\s*\{\s*%(W)s\.1\.key_value\s*=\s*None", r"key_value\.take\(\)\.is_some\(\)"], []),
+    ("insert_recursive: a leftmost-regex host on an existing value-less regex node stores its value (Ok), Existing otherwise",
+     [r"key_value\.is_some\(\)\s*\{\s*return InsertResult::Existing;?\s*\}\s*else\s*\{.*?key_value\s*=\s*Some\(\(%(W)s\.to_vec\(\),\s*%(W)s\)\);\s*return InsertResult::Ok"], []),
+    ("lookup_with_path falls through when the literal child yields nothing",
+     [r"if let Some\(%(W)s\) = self\.children\.get\(%(W)s\)\s*\{\s*if let Some\(%(W)s\) = %(W)s\.lookup_with_path\([^;]*?\)\s*\{\s*return Some\(%(W)s\)",
+      r"self\.children\.get\(%(W)s\)\s*\.and_then\(\|%(W)s\|\s*%(W)s\.lookup_with_path\("],
+     [r"Some\(%(W)s\)\s*=>\s*(return\s+)?%(W)s\.lookup_with_path\("]),
+    ("lookup_with_path tries the next matching regex when one yields nothing",
+     [r"\.is_match\(%(W)s\)\s*\{.*?if let Some\(%(W)s\) = %(W)s\.lookup_with_path\([^;]*?\)\s*\{\s*return Some\(%(W)s\)"],
+     [r"\.is_match\(%(W)s\)\s*\{(?:(?!if let Some).)*?return %(W)s\.lookup_with_path\("]),
+    ("insert answers Failed when the recursion failed", [r"==\s*InsertResult::Failed\s*\{\s*return InsertResult::Failed", r"InsertResult::Failed\s*=>\s*return InsertResult::Failed",
+                                                        r"if let InsertResult::Failed = %(W)s\s*\{\s*return InsertResult::Failed",
+                                                        r"matches!\(%(W)s, InsertResult::Failed\)\s*\{\s*return InsertResult::Failed"],
+     [r"assert_ne!\(%(W)s, InsertResult::Failed\)"]),
+    ("insert_recursive refuses an empty label", [r"if\s+%(W)s\.is_empty\(\)\s*\{\s*return InsertResult::Failed"], [r"assert_ne!\(%(W)s, &b\"\"\[\.\.\]\)"]),
+    ("lookup_with_path: the wild-card applies to the leftmost label only, when wild-cards are accepted",
+     [r"%(W)s\.is_empty\(\)\s*&&\s*self\.wildcard\.is_some\(\)\s*&&\s*accept_wildcard",
+      r"accept_wildcard\s*&&\s*%(W)s\.is_empty\(\)\s*&&\s*self\.wildcard\.is_some\(\)",
+      r"self\.wildcard\.is_some\(\)\s*&&\s*%(W)s\.is_empty\(\)\s*&&\s*accept_wildcard"], []),
+    ("remove_recursive prunes a child emptied by the removal",
+     [r"if\s+%(W)s\.is_empty\(\)\s*\{\s*self\.children\.remove\(%(W)s\)",
+      r"let\s+(%(W)s)\s*=\s*%(W)s\.is_empty\(\);\s*if\s+\1\s*\{\s*self\.children\.remove\(%(W)s\)"], []),
 ]
 
 # ---------------------------------------------------------------------------
